@@ -434,6 +434,18 @@ class World:
         self.fn_index()
         return list(self._fn_index.get(nid, []))
 
+    def closure_calling(self, parent, pred):
+        """id of the closure body of `parent` (any nesting, any number) whose MIR calls a callee satisfying pred; falls back to closure#0"""
+        self.mir_index()
+        cands = sorted(x for x in self._mir_index if x.startswith(parent + '::{closure#'))
+        for x in cands:
+            for b in self.mir_bodies(x):
+                for blk in b['blocks']:
+                    t = blk['t']
+                    if t.get('k') == 'call' and pred(mir_callee(t) or ''):
+                        return x
+        return parent + '::{closure#0}'
+
     def all_fns(self, crates=None):
         for c in (crates or self.crates()):
             for f in self.hir(c)['fns']:
